@@ -951,6 +951,48 @@ def gen_leaf_type(rng, prof):
     return {"t": "literal", "vals": vals}
 
 
+_dc_counter = [0]
+
+
+def gen_nested_dataclass(rng, prof, sg, depth=0):
+    """a dataclass meant to sit INSIDE a type hint (Optional[D], List[D], Dict[str, D], field of another dataclass):
+    it is serialised by a nested parser.  Most fields are Optional with a NON-None default, so that an explicit
+    null is information that the dump must keep"""
+    fields = []
+    for i in range(rng.randint(1, 3)):
+        r = rng.random()
+        if r < 0.65:
+            inner = rng.choice([{"t": "int"}, {"t": "float"}, {"t": "str"}, {"t": "bool"}, {"t": "enum", "name": "Color"}])
+            ft = {"t": "opt", "a": inner}
+            dv = gen_value(inner, rng, sg, prof)          # non-None default
+        elif r < 0.85 or depth >= 1:
+            ft = rng.choice([{"t": "int"}, {"t": "str"}, {"t": "float"}, {"t": "list", "a": {"t": "int"}}])
+            dv = gen_value(ft, rng, sg, prof)
+        else:
+            ft = gen_nested_dataclass(rng, prof, sg, depth + 1)   # D as a field of another dataclass
+            dv = None
+        f = {"name": "f%d" % i, "type": ft}
+        if dv is not None or ft["t"] != "dataclass":
+            if ft["t"] != "dataclass":
+                f["default"] = dv
+        fields.append(f)
+    fields.sort(key=lambda f: "default" in f)
+    _dc_counter[0] += 1
+    return {"t": "dataclass", "name": "ND%d" % _dc_counter[0], "fields": fields, "nested": True}
+
+
+def gen_nested_dataclass_hint(rng, prof, sg):
+    d = gen_nested_dataclass(rng, prof, sg)
+    r = rng.random()
+    if r < 0.35:
+        return {"t": "opt", "a": d}
+    if r < 0.7:
+        return {"t": "list", "a": d}
+    if r < 0.9:
+        return {"t": "dict", "k": "str", "v": d}
+    return {"t": "list", "a": {"t": "opt", "a": d}}
+
+
 def gen_type(rng, prof, depth=0):
     r = rng.random()
     if depth >= prof.get("max_depth", 2) or r < 0.4:
@@ -1035,10 +1077,13 @@ def order_union_clean(members):
     return out
 
 
-def gen_dataclass_type(rng, prof, idx):
+def gen_dataclass_type(rng, prof, idx, sg=None):
     fields = []
     for i in range(rng.randint(1, 3)):
-        ft = gen_type(rng, prof, depth=1)
+        if sg is not None and rng.random() < 0.2:
+            ft = gen_nested_dataclass(rng, prof, sg, depth=1) if rng.random() < 0.5 else gen_nested_dataclass_hint(rng, prof, sg)
+        else:
+            ft = gen_type(rng, prof, depth=1)
         f = {"name": "f%d" % i, "type": ft}
         fields.append(f)
     return {"t": "dataclass", "name": "DC%d" % idx, "fields": fields}
@@ -1113,7 +1158,15 @@ def gen_value(t, rng, sg, prof, depth=0):
                 out.append(v)
         return out
     if k == "dataclass":
-        return {f["name"]: gen_value(f["type"], rng, sg, prof, depth + 1) for f in t["fields"] if "default" not in f or rng.random() < 0.7}
+        out = {}
+        for f in t["fields"]:
+            if "default" in f and rng.random() >= 0.7:
+                continue
+            if t.get("nested") and f["type"]["t"] == "opt" and rng.random() < 0.45:
+                out[f["name"]] = None                    # explicit null over a non-None default
+            else:
+                out[f["name"]] = gen_value(f["type"], rng, sg, prof, depth + 1)
+        return out
     raise ValueError(k)
 
 
@@ -1124,12 +1177,19 @@ def gen_case(rng, sg, prof):
     used_dc = 0
     for i in range(nargs):
         r = rng.random()
-        if r < 0.15:
-            t = gen_dataclass_type(rng, prof, used_dc)
+        if r < prof.get("p_nested_dc", 0.12):
+            t = gen_nested_dataclass_hint(rng, prof, sg)
+            name = "h%d" % i
+            a = {"name": name, "type": t}
+            args.append(a)
+            obj[name] = gen_value(t, rng, sg, prof)
+            continue
+        if r < prof.get("p_nested_dc", 0.12) + 0.15:
+            t = gen_dataclass_type(rng, prof, used_dc, sg)
             used_dc += 1
             # dataclass fields get defaults half of the time
             for f in t["fields"]:
-                if rng.random() < 0.5 and (prof.get("dict_defaults", False) or not _has_dict(f["type"])):
+                if rng.random() < 0.5 and (prof.get("dict_defaults", False) or not _has_dict(f["type"])) and "dataclass" not in json.dumps(f["type"]):
                     f["default"] = gen_value(f["type"], rng, sg, prof)
             t["fields"].sort(key=lambda f: "default" in f)   # dataclass rule: fields without default first
             name = "g%d" % i
